@@ -207,6 +207,7 @@ type Frame struct {
 	siteOrd map[ssa.Instruction]int
 	pendingAfter []ssa.Instruction
 	callArgVals map[string][]*Val
+	siteReach   map[string]string // reach condition under which the n-th call of a callee was executed (called(f, n))
 }
 
 type deferredCall struct {
